@@ -19,6 +19,7 @@ import shutil
 
 import common
 import stepcontrol
+import bscontrol
 from common import MachineryError
 
 LEVEL = "model_checking"
@@ -291,6 +292,8 @@ def run(tier, rep):
         raise MachineryError("trace worker failed: %s" % r.stderr[-3000:])
     # the IAS15 step-size controller: model, decision table, recorded attempts
     stepcontrol.run(rep, tier, sc)
+    # the Bulirsch-Stoer order / step-size controller: model, negative models, recorded calls (BS and the BS part of TRACE)
+    bscontrol.run(rep, tier, sc)
     meta = json.load(open(os.path.join(td, "meta.json")))
     if not os.path.getsize(os.path.join(sc, "hook_trace.txt")):
         raise MachineryError("no hook output (hook layer not compiled in?)")
